@@ -48,7 +48,11 @@ func TestPropTransaction(t *testing.T) {
 			c.Branches = append(c.Branches, Branch{Name: n, Existing: rapid.Bool().Draw(t, "existing")})
 		}
 		c.History = rapid.SampledFrom([]string{"commit-fault", "commit-fault", "commit-fault", "commit", "commit-twice", "discard", "discard-fault", "discard-after-commit", "commit-after-discard"}).Draw(t, "history")
-		c.FaultAt = rapid.IntRange(1, 14).Draw(t, "faultAt")
+		nw, err := countWrites(c)
+		if err != nil {
+			t.Fatalf("HARNESS: %v", err)
+		}
+		c.FaultAt = rapid.IntRange(1, nw+1).Draw(t, "faultAt")
 		c.Dead = rapid.Bool().Draw(t, "dead")
 		sub.Check(t, c)
 	})
@@ -64,7 +68,11 @@ func TestExhaustiveFaults(t *testing.T) {
 				bs = append(bs, Branch{Name: branchNames[i], Existing: mask&(1<<uint(i)) != 0})
 			}
 			for _, h := range []string{"commit-fault", "discard-fault"} {
-				for at := 1; at <= 3*nb+2; at++ {
+				nw, err := countWrites(Case{Branches: bs, History: h})
+				if err != nil {
+					t.Fatalf("HARNESS: %v", err)
+				}
+				for at := 1; at <= nw+1; at++ {
 					for _, dead := range []bool{false, true} {
 						sub.Check(t, Case{Branches: bs, History: h, FaultAt: at, Dead: dead})
 					}
@@ -81,7 +89,8 @@ func TestReplay(t *testing.T) { evid.Replay(t) }
 
 type world struct {
 	db      *stores.Mem
-	rs      *stores.FaultyRef
+	rs      ref.Store
+	faults  *stores.SQLFaults
 	id      uuid.UUID
 	oldHead map[string][]byte
 	staged  map[string][]byte // branch -> staged commit sum
@@ -105,12 +114,15 @@ func (w *world) gate() error {
 }
 
 func setup(c Case) (*world, error) {
-	base, _, closeFn, err := stores.NewRefStore()
+	// faults are injected below the ref store, at the individual sqlite write statements and
+	// COMMITs, so that one can land between two statements of a single ref.Store method
+	base, faults, closeFn, err := stores.NewFaultyRefStore()
 	if err != nil {
 		return nil, err
 	}
 	w := &world{db: stores.NewMem(), oldHead: map[string][]byte{}, staged: map[string][]byte{}, tables: map[string][]byte{}, closeFn: closeFn}
-	w.rs = &stores.FaultyRef{Store: base}
+	w.rs = base
+	w.faults = faults
 	for i, b := range c.Branches {
 		if b.Existing {
 			tbl := model.Sum([]byte("old-table-" + b.Name))
@@ -142,8 +154,26 @@ func setup(c Case) (*world, error) {
 		w.tables[b.Name] = tbl
 	}
 	w.db.BeforeWrite = func(op string, key []byte) error { return w.gate() }
-	w.rs.Before = func(op, key string) error { return w.gate() }
+	w.faults.SetGate(func(kind, query string) error { return w.gate() })
 	return w, nil
+}
+
+// countWrites runs the case's operation without faults and returns how many storage writes
+// (object writes, sqlite write statements, sqlite commits) it performs.
+func countWrites(c Case) (int, error) {
+	w, err := setup(c)
+	if err != nil {
+		return 0, err
+	}
+	defer w.closeFn()
+	w.arm(0, false)
+	switch c.History {
+	case "discard", "discard-fault", "discard-after-commit":
+		err = transaction.Discard(w.rs, w.id)
+	default:
+		_, err = transaction.Commit(w.db, w.rs, w.id)
+	}
+	return w.writes, err
 }
 
 func (w *world) arm(at int, dead bool) { w.writes, w.failAt, w.dead, w.hit = 0, at, dead, false }
